@@ -56,7 +56,7 @@ func vetMemory(src []byte) bool {
 		return true
 	}
 	oc := lang.RunWith(p, 1<<20)
-	if strings.HasPrefix(oc.Unspecified, "repeat result too large") {
+	if oc.TooLarge {
 		return false
 	}
 	if oc.Unspecified != "" && hasLargeNumber(src) {
